@@ -6,12 +6,16 @@ pub mod c02;
 pub mod c04;
 pub mod c05;
 pub mod c06;
+pub mod c08;
+pub mod c09;
 pub mod c10;
 pub mod c11;
 pub mod c11_decoders;
 pub mod c12;
 pub mod c12_parse;
 pub mod c13;
+pub mod c16;
+pub mod c16_model;
 
 pub struct Prop {
     pub id: &'static str,
@@ -27,10 +31,13 @@ pub fn all() -> Vec<Prop> {
         Prop { id: "C04", run: c04::run, replay: c04::replay },
         Prop { id: "C05", run: c05::run, replay: c05::replay },
         Prop { id: "C06", run: c06::run, replay: c06::replay },
+        Prop { id: "C08", run: c08::run, replay: c08::replay },
+        Prop { id: "C09", run: c09::run, replay: c09::replay },
         Prop { id: "C10", run: c10::run, replay: c10::replay },
         Prop { id: "C11", run: c11::run, replay: c11::replay },
         Prop { id: "C12", run: c12::run, replay: c12::replay },
         Prop { id: "C13", run: c13::run, replay: c13::replay },
+        Prop { id: "C16", run: c16::run, replay: c16::replay },
     ]
 }
 
